@@ -89,7 +89,9 @@ func (c *AuthorizeExplicitGrantHandler) HandleTokenEndpointRequest(ctx context.C
 	// credentials (or assigned other authentication requirements), the
 	// client MUST authenticate with the authorization server as described
 	// in Section 3.2.1.
-	request.SetSession(authorizeRequest.GetSession())
+	// Work on a copy of the stored session: the stored authorize request (and, in the hybrid flow, the
+	// implicit access token issued next to the code) must not see the expiry times set for this exchange.
+	request.SetSession(authorizeRequest.GetSession().Clone())
 	request.SetID(authorizeRequest.GetID())
 
 	atLifespan := fosite.GetEffectiveLifespan(request.GetClient(), fosite.GrantTypeAuthorizationCode, fosite.AccessToken, c.Config.GetAccessTokenLifespan(ctx))
